@@ -44,24 +44,55 @@ Qed.
 
 Definition total (s : rstate) : Z := value s + len (tasks s) + slots_held (loops s).
 
-(* ---- release ---- *)
+(* ---- wake_next / release ---- *)
+Lemma wake_fields s :
+  limit (wake_next s) = limit s /\ maxt (wake_next s) = maxt s /\ tasks (wake_next s) = tasks s /\ started (wake_next s) = started s /\
+  processed (wake_next s) = processed s /\ stop (wake_next s) = stop s /\ backlog (wake_next s) = backlog s /\ leaked (wake_next s) = leaked s /\
+  map l_q (loops (wake_next s)) = map l_q (loops s) /\ value s - 1 <= value (wake_next s) <= value s.
+Proof.
+  unfold wake_next. destruct (waiters s) as [|q w]; [repeat split; lia|].
+  destruct (get_loop q (loops s)) as [[q' st p]|]; [|cbn; repeat split; lia].
+  destruct st; cbn; repeat split; try lia. apply names_set_loop.
+Qed.
+
+Lemma total_wake s : NoDup (map l_q (loops s)) -> total (wake_next s) = total s.
+Proof.
+  intros Hnd. unfold wake_next, total. destruct (waiters s) as [|q w]; [reflexivity|].
+  destruct (get_loop q (loops s)) as [[q' st p]|] eqn:Eg; [|cbn [value tasks loops upd]; lia].
+  destruct st; try (cbn [value tasks loops upd]; lia). cbn [value tasks loops upd].
+  rewrite (slots_set_loop q _ p (loops s) _ Hnd Eg). cbn [holds_slot l_st]. lia.
+Qed.
+
+(* a loop that is not waiting is left alone by a wake-up *)
+Lemma wake_keeps s q l : get_loop q (loops s) = Some l -> (forall m, l_st l <> LWaiting m) -> get_loop q (loops (wake_next s)) = Some l.
+Proof.
+  intros Eg Hst. unfold wake_next. destruct (waiters s) as [|w ws]; [exact Eg|].
+  destruct (get_loop w (loops s)) as [[w' wst wp]|] eqn:Ew; [|exact Eg]. destruct wst; try exact Eg. cbn [loops upd].
+  destruct (Z.eq_dec w q) as [->|Hne]; [rewrite Eg in Ew; inversion Ew; subst; cbn in Hst; exfalso; eapply Hst; reflexivity|].
+  clear - Eg Hne. induction (loops s) as [|x ls IH]; [discriminate|]. cbn [get_loop set_loop] in *.
+  destruct (l_q x =? w) eqn:E1, (l_q x =? q) eqn:E2; cbn [get_loop l_q].
+  - apply Z.eqb_eq in E1, E2. congruence.
+  - assert (E3 : w =? q = false) by (apply Z.eqb_neq; exact Hne). rewrite E3. exact Eg.
+  - rewrite E2. exact Eg.
+  - rewrite E2. apply IH. exact Eg.
+Qed.
+
 Lemma release_fields s :
   limit (release s) = limit s /\ maxt (release s) = maxt s /\ tasks (release s) = tasks s /\ started (release s) = started s /\
   processed (release s) = processed s /\ stop (release s) = stop s /\ backlog (release s) = backlog s /\ leaked (release s) = leaked s /\
   map l_q (loops (release s)) = map l_q (loops s) /\ value s <= value (release s).
 Proof.
-  unfold release. destruct (waiters s) as [|q w]; [cbn; repeat split; lia|].
-  destruct (get_loop q (loops s)) as [[q' st p]|]; [|cbn; repeat split; lia].
-  destruct st; cbn; repeat split; try lia. apply names_set_loop.
+  unfold release. match goal with |- context [wake_next ?x] => destruct (wake_fields x) as (A & B & C & D & E & F & G & H & I & J) end.
+  cbn [limit maxt tasks started processed stop backlog leaked loops value upd] in *. repeat split; try assumption; lia.
 Qed.
 
 Lemma total_release s : NoDup (map l_q (loops s)) -> total (release s) = total s + 1.
 Proof.
-  intros Hnd. unfold release, total. destruct (waiters s) as [|q w]; [cbn [value tasks loops upd]; lia|].
-  destruct (get_loop q (loops s)) as [[q' st p]|] eqn:Eg; [|cbn [value tasks loops upd]; lia].
-  destruct st; try (cbn [value tasks loops upd]; lia). cbn [value tasks loops upd].
-  rewrite (slots_set_loop q _ p (loops s) _ Hnd Eg). cbn [holds_slot l_st]. lia.
+  intros Hnd. unfold release. rewrite total_wake; [|exact Hnd]. unfold total. cbn [value tasks loops upd]. lia.
 Qed.
+
+Lemma release_keeps s q l : get_loop q (loops s) = Some l -> (forall m, l_st l <> LWaiting m) -> get_loop q (loops (release s)) = Some l.
+Proof. intros Eg Hst. unfold release. apply wake_keeps; assumption. Qed.
 
 (* ---- the invariant ---- *)
 Record Inv (s : rstate) : Prop := {
@@ -107,7 +138,7 @@ Proof.
   - (* acquire fast *)
     destruct (get_loop q (loops s)) as [[q' st p]|] eqn:Eg; [|discriminate]. destruct st; try discriminate.
     destruct (locked s) eqn:El; [discriminate|]. inversion H; subst; clear H.
-    unfold locked in El. apply orb_false_iff in El. destruct El as [El _]. apply Z.leb_gt in El.
+    unfold locked in El. apply orb_false_iff in El. destruct El as [El _]. apply orb_false_iff in El. destruct El as [El _]. apply Z.leb_gt in El.
     constructor; fields; try assumption.
     + rewrite names_set_loop. exact Hn.
     + rewrite (slots_set_loop q _ p _ _ Hn Eg). cbn [holds_slot l_st]. lia.
@@ -119,9 +150,22 @@ Proof.
     + rewrite (slots_set_loop q _ true _ _ Hn Eg). cbn [holds_slot l_st]. lia.
   - (* unpause *)
     destruct (get_loop q (loops s)) as [[q' st p]|] eqn:Eg; [|discriminate]. destruct st; try discriminate.
-    inversion H; subst; clear H. constructor; fields; try assumption.
-    + rewrite names_set_loop. exact Hn.
-    + rewrite (slots_set_loop q _ false _ _ Hn Eg). cbn [holds_slot l_st]. lia.
+    set (s1 := upd s (value s) (waiters s) (set_loop q (LHold m) false (loops s)) (tasks s) (started s) (processed s) (stop s) (backlog s) (leaked s)) in *.
+    assert (I1 : Inv s1).
+    { subst s1. constructor; fields; try assumption.
+      + rewrite names_set_loop. exact Hn.
+      + rewrite (slots_set_loop q _ false _ _ Hn Eg). cbn [holds_slot l_st]. lia. }
+    destruct (0 <? value s1) eqn:Ev; inversion H; subst; clear H; [|exact I1].
+    apply Z.ltb_lt in Ev. clearbody s1. destruct I1 as [Hn1 Hl1 Hv1 Hc1 Hm1 Hs1].
+    destruct (wake_fields s1) as (A & B & C & D & E & F & G & HH & II & J).
+    pose proof (total_wake s1 Hn1) as Ht. unfold total in Ht.
+    constructor.
+    + rewrite II. exact Hn1.
+    + rewrite A. lia.
+    + lia.
+    + rewrite C, D, E. exact Hc1.
+    + rewrite B, D. exact Hm1.
+    + rewrite B, E, F. exact Hs1.
   - (* spawn *)
     destruct (get_loop q (loops s)) as [[q' st p]|] eqn:Eg; [|discriminate]. destruct st; try discriminate.
     destruct (limit_reached s) eqn:Er; [discriminate|]. inversion H; subst; clear H.
@@ -141,16 +185,7 @@ Proof.
     pose proof (total_release s Hn) as Ht. unfold total in Ht.
     assert (Hn' : NoDup (map l_q (loops (release s)))) by (rewrite R9; exact Hn).
     (* the loop of q is still LHold in release s: release only turns LWaiting into LGranted *)
-    assert (Eg' : get_loop q (loops (release s)) = Some (mkLoop q' (LHold m) p)).
-    { unfold release. destruct (waiters s) as [|w ws]; [exact Eg|].
-      destruct (get_loop w (loops s)) as [[w' wst wp]|] eqn:Ew; [|exact Eg]. destruct wst; try exact Eg. cbn [loops upd].
-      destruct (Z.eq_dec w q) as [->|Hne]; [rewrite Eg in Ew; discriminate|].
-      clear - Eg Hne. induction (loops s) as [|x ls IH]; [discriminate|]. cbn [get_loop set_loop] in *.
-      destruct (l_q x =? w) eqn:E1, (l_q x =? q) eqn:E2; cbn [get_loop l_q].
-      - apply Z.eqb_eq in E1, E2. congruence.
-      - assert (E3 : w =? q = false) by (apply Z.eqb_neq; exact Hne). rewrite E3. exact Eg.
-      - rewrite E2. exact Eg.
-      - rewrite E2. apply IH. exact Eg. }
+    assert (Eg' : get_loop q (loops (release s)) = Some (mkLoop q' (LHold m) p)) by (apply release_keeps; [exact Eg | cbn; discriminate]).
     constructor; fields.
     + rewrite names_set_loop. exact Hn'.
     + rewrite (slots_set_loop q _ p _ _ Hn' Eg'). cbn [holds_slot l_st]. rewrite R1, R3 in *. lia.
@@ -218,6 +253,7 @@ Proof.
     repeat match type of H with context [match ?x with _ => _ end] => destruct x; try discriminate end;
     inversion H; subst; cbn [limit maxt upd]; try (split; reflexivity);
     repeat match goal with |- context [release ?x] => destruct (release_fields x) as [R1 [R2 _]]; rewrite ?R1, ?R2; clear R1 R2 end;
+    repeat match goal with |- context [wake_next ?x] => destruct (wake_fields x) as [R1 [R2 _]]; rewrite ?R1, ?R2; clear R1 R2 end;
     cbn [limit maxt upd]; split; reflexivity.
 Qed.
 
@@ -326,7 +362,8 @@ Definition is_waiting (ls : list loop) (q : Z) : Prop := exists m p, get_loop q 
 Record WInv (s : rstate) : Prop := {
   w_all : forall q, In q (waiters s) -> is_waiting (loops s) q;
   w_nodup : NoDup (waiters s);
-  w_value : waiters s <> [] -> value s <= 0
+  (* a loop queues up only while no slot is free - or behind a loop that has been handed a slot and has not resumed yet *)
+  w_value : waiters s <> [] -> 0 < value s -> existsb is_granted (loops s) = true
 }.
 
 Lemma get_set_other q q' st p ls : q' <> q -> get_loop q' (set_loop q st p ls) = get_loop q' ls.
@@ -351,29 +388,49 @@ Proof. intros Hne [m [p' H]]. exists m, p'. rewrite get_set_other by exact Hne. 
 Lemma not_waiting_if q ls l : get_loop q ls = Some l -> (forall m, l_st l <> LWaiting m) -> ~ is_waiting ls q.
 Proof. intros Hg Hn [m [p H]]. rewrite Hg in H. inversion H; subst. apply (Hn m). reflexivity. Qed.
 
-Lemma WInv_release s : WInv s -> WInv (release s).
+Lemma granted_set_new q m p ls l : get_loop q ls = Some l -> existsb is_granted (set_loop q (LGranted m) p ls) = true.
 Proof.
-  intros [Ha Hn Hv]. unfold release. destruct (waiters s) as [|q w] eqn:Ew.
-  - constructor; cbn [waiters loops value upd]; [intros q [] | constructor | intros H; congruence].
+  revert l. induction ls as [|x ls IH]; intros l H; cbn [get_loop] in H; [discriminate|]. cbn [set_loop].
+  destruct (l_q x =? q); cbn [existsb]; [reflexivity|]. rewrite (IH _ H). apply orb_true_r.
+Qed.
+
+Lemma granted_preserved q st p ls l :
+  get_loop q ls = Some l -> is_granted l = false -> existsb is_granted ls = true -> existsb is_granted (set_loop q st p ls) = true.
+Proof.
+  revert l. induction ls as [|x ls IH]; intros l H Hl Hex; cbn [get_loop] in H; [discriminate|]. cbn [set_loop existsb] in *.
+  destruct (l_q x =? q).
+  - inversion H; subst. rewrite Hl in Hex. cbn [orb] in Hex. cbn [existsb]. rewrite Hex. apply orb_true_r.
+  - cbn [existsb]. destruct (is_granted x); [reflexivity|]. cbn [orb] in *. eapply IH; eauto.
+Qed.
+
+(* a wake-up keeps the waiting list honest and leaves a granted loop behind whenever it leaves waiters behind *)
+Lemma WInv_wake s : (forall q, In q (waiters s) -> is_waiting (loops s) q) -> NoDup (waiters s) -> WInv (wake_next s).
+Proof.
+  intros Ha Hn. unfold wake_next. destruct (waiters s) as [|q w] eqn:Ew.
+  - constructor; rewrite ?Ew; [intros q [] | constructor | intros H; congruence].
   - destruct (Ha q (or_introl eq_refl)) as [m [p Hg]]. rewrite Hg. inversion Hn as [|x xs Hnot Hn']; subst.
     constructor; cbn [waiters loops value upd].
     + intros q' Hin. apply waiting_set_other; [intros ->; contradiction | apply Ha; right; exact Hin].
     + exact Hn'.
-    + intros _. apply Hv. discriminate.
+    + intros _ _. eapply granted_set_new. exact Hg.
 Qed.
+
+Lemma WInv_release s : (forall q, In q (waiters s) -> is_waiting (loops s) q) -> NoDup (waiters s) -> WInv (release s).
+Proof. intros Ha Hn. unfold release. apply WInv_wake; cbn [waiters loops upd]; assumption. Qed.
 
 Theorem WInv_step s e s' : WInv s -> step_ev s e = Some s' -> WInv s'.
 Proof.
   intros W H. pose proof W as [Ha Hn Hv]. destruct e as [q m|q|q|q|q|q|q|m| |q|q m]; cbn [step_ev] in H.
   - destruct (get_loop q (loops s)) as [[q' st p]|] eqn:Eg; [|discriminate]. destruct st; try discriminate.
     destruct (take_msg q (backlog s)) as [[m' b']|]; [|discriminate]. destruct ((m' =? m) && negb p); [|discriminate].
-    inversion H; subst; clear H. constructor; cbn [waiters loops value upd]; [|assumption|assumption].
-    intros q0 Hin. apply waiting_set_other; [|apply Ha; exact Hin]. intros ->.
-    apply (not_waiting_if _ _ _ Eg); [cbn; discriminate | apply Ha; exact Hin].
+    inversion H; subst; clear H. constructor; cbn [waiters loops value upd]; [|assumption|].
+    + intros q0 Hin. apply waiting_set_other; [|apply Ha; exact Hin]. intros ->.
+      apply (not_waiting_if _ _ _ Eg); [cbn; discriminate | apply Ha; exact Hin].
+    + intros Hw Hp. eapply granted_preserved; [exact Eg | reflexivity | auto].
   - destruct (get_loop q (loops s)) as [[q' st p]|] eqn:Eg; [|discriminate]. destruct st; try discriminate.
     destruct (locked s) eqn:El; [discriminate|]. inversion H; subst; clear H.
-    unfold locked in El. apply orb_false_iff in El. destruct El as [_ El]. apply negb_false_iff in El.
-    destruct (waiters s) eqn:Ew; [|discriminate].
+    unfold locked in El. apply orb_false_iff in El. destruct El as [El _]. apply orb_false_iff in El. destruct El as [_ El].
+    apply negb_false_iff in El. destruct (waiters s) eqn:Ew; [|discriminate].
     constructor; cbn [waiters loops value upd]; rewrite ?Ew; [intros q0 [] | constructor | intros Hc; congruence].
   - destruct (get_loop q (loops s)) as [[q' st p]|] eqn:Eg; [|discriminate]. destruct st; try discriminate.
     destruct (locked s) eqn:El; [|discriminate]. inversion H; subst; clear H.
@@ -384,34 +441,40 @@ Proof.
       * apply waiting_set_other; [intros ->; contradiction | apply Ha; exact Hin].
       * exists m, true. eapply get_set_same. exact Eg.
     + apply NoDup_app_one; assumption.
-    + intros _. unfold locked in El. apply orb_true_iff in El. destruct El as [El|El]; [apply Z.leb_le; exact El|].
-      apply Hv. destruct (waiters s); [discriminate El | discriminate].
+    + intros _ Hp. eapply granted_preserved; [exact Eg | reflexivity |].
+      unfold locked in El. apply orb_true_iff in El. destruct El as [El|El]; [|exact El].
+      apply orb_true_iff in El. destruct El as [El|El]; [apply Z.leb_le in El; lia|].
+      apply Hv; [|exact Hp]. destruct (waiters s); [discriminate El | discriminate].
   - destruct (get_loop q (loops s)) as [[q' st p]|] eqn:Eg; [|discriminate]. destruct st; try discriminate.
-    inversion H; subst; clear H. constructor; cbn [waiters loops value upd]; [|assumption|assumption].
-    intros q0 Hin. apply waiting_set_other; [|apply Ha; exact Hin]. intros ->.
-    apply (not_waiting_if _ _ _ Eg); [cbn; discriminate | apply Ha; exact Hin].
+    set (s1 := upd s (value s) (waiters s) (set_loop q (LHold m) false (loops s)) (tasks s) (started s) (processed s) (stop s) (backlog s) (leaked s)) in *.
+    assert (Ha1 : forall q0, In q0 (waiters s1) -> is_waiting (loops s1) q0).
+    { subst s1. cbn [waiters loops upd]. intros q0 Hin. apply waiting_set_other; [|apply Ha; exact Hin]. intros ->.
+      apply (not_waiting_if _ _ _ Eg); [cbn; discriminate | apply Ha; exact Hin]. }
+    destruct (0 <? value s1) eqn:Ev; inversion H; subst; clear H.
+    + apply WInv_wake; [exact Ha1 | exact Hn].
+    + apply Z.ltb_ge in Ev. constructor; [exact Ha1 | exact Hn | intros _ Hp; subst s1; cbn [value upd] in *; lia].
   - destruct (get_loop q (loops s)) as [[q' st p]|] eqn:Eg; [|discriminate]. destruct st; try discriminate.
     destruct (limit_reached s); [discriminate|]. inversion H; subst; clear H.
-    constructor; cbn [waiters loops value upd]; [|assumption|assumption].
-    intros q0 Hin. apply waiting_set_other; [|apply Ha; exact Hin]. intros ->.
-    apply (not_waiting_if _ _ _ Eg); [cbn; discriminate | apply Ha; exact Hin].
+    constructor; cbn [waiters loops value upd]; [|assumption|].
+    + intros q0 Hin. apply waiting_set_other; [|apply Ha; exact Hin]. intros ->.
+      apply (not_waiting_if _ _ _ Eg); [cbn; discriminate | apply Ha; exact Hin].
+    + intros Hw Hp. eapply granted_preserved; [exact Eg | reflexivity | auto].
   - destruct (get_loop q (loops s)) as [[q' st p]|] eqn:Eg; [|discriminate]. destruct st; try discriminate.
     destruct (limit_reached s); [|discriminate]. inversion H; subst; clear H.
-    pose proof (WInv_release s W) as [Ha' Hn' Hv'].
-    constructor; cbn [waiters loops value upd]; [|assumption|assumption].
-    intros q0 Hin. destruct (Z.eq_dec q0 q) as [->|Hne]; [|apply waiting_set_other; [exact Hne | apply Ha'; exact Hin]].
-    exfalso. (* q holds a slot in s, so it is not among the waiters of s, and release only removes waiters *)
-    assert (Hsub : forall x, In x (waiters (release s)) -> In x (waiters s)).
-    { intros x. unfold release. destruct (waiters s) as [|w ws]; [cbn; auto|].
-      destruct (get_loop w (loops s)) as [[w' wst wp]|]; [destruct wst|]; cbn [waiters upd]; intros Hx; right; exact Hx. }
-    apply (not_waiting_if _ _ _ Eg); [cbn; discriminate | apply Ha, Hsub; exact Hin].
+    pose proof (WInv_release s Ha Hn) as [Ha' Hn' Hv'].
+    assert (Eg' : get_loop q (loops (release s)) = Some (mkLoop q' (LHold m) p)) by (apply release_keeps; [exact Eg | cbn; discriminate]).
+    constructor; cbn [waiters loops value upd]; [|assumption|].
+    + intros q0 Hin. destruct (Z.eq_dec q0 q) as [->|Hne]; [|apply waiting_set_other; [exact Hne | apply Ha'; exact Hin]].
+      exfalso. apply (not_waiting_if _ _ _ Eg'); [cbn; discriminate | apply Ha'; exact Hin].
+    + intros Hw Hp. eapply granted_preserved; [exact Eg' | reflexivity | auto].
   - destruct (get_loop q (loops s)) as [[q' st p]|] eqn:Eg; [|discriminate]. destruct st; try discriminate.
-    inversion H; subst; clear H. constructor; cbn [waiters loops value upd]; [|assumption|assumption].
-    intros q0 Hin. apply waiting_set_other; [|apply Ha; exact Hin]. intros ->.
-    apply (not_waiting_if _ _ _ Eg); [cbn; discriminate | apply Ha; exact Hin].
+    inversion H; subst; clear H. constructor; cbn [waiters loops value upd]; [|assumption|].
+    + intros q0 Hin. apply waiting_set_other; [|apply Ha; exact Hin]. intros ->.
+      apply (not_waiting_if _ _ _ Eg); [cbn; discriminate | apply Ha; exact Hin].
+    + intros Hw Hp. eapply granted_preserved; [exact Eg | reflexivity | auto].
   - destruct (remove_one m (tasks s)) as [ts|]; [|discriminate]. inversion H; subst; clear H.
     match goal with |- WInv (upd (upd (release ?s0) _ _ _ _ _ _ _ _ _) _ _ _ _ _ _ _ _ _) =>
-      assert (W0 : WInv s0) by (constructor; assumption); pose proof (WInv_release s0 W0) as [Ha' Hn' Hv'] end.
+      pose proof (WInv_release s0 Ha Hn) as [Ha' Hn' Hv'] end.
     constructor; cbn [waiters loops value upd]; assumption.
   - inversion H; subst; clear H. constructor; cbn [waiters loops value upd]; assumption.
   - destruct (negb (stop s)); [discriminate|].
@@ -420,17 +483,21 @@ Proof.
     { intros st' Hst q0 Hin. apply waiting_set_other; [|apply Ha; exact Hin]. intros ->.
       apply (not_waiting_if _ _ _ Eg); [cbn; exact Hst | apply Ha; exact Hin]. }
     destruct st; try discriminate; inversion H; subst; clear H.
-    + constructor; cbn [waiters loops value upd]; [apply Hother; discriminate | assumption | assumption].
-    + constructor; cbn [waiters loops value upd]; [apply Hother; discriminate | assumption | assumption].
+    + constructor; cbn [waiters loops value upd]; [apply Hother; discriminate | assumption |].
+      intros Hw Hp. eapply granted_preserved; [exact Eg | reflexivity | auto].
+    + constructor; cbn [waiters loops value upd]; [apply Hother; discriminate | assumption |].
+      intros Hw Hp. eapply granted_preserved; [exact Eg | reflexivity | auto].
     + (* a waiting loop is cancelled: it leaves the queue of waiters *)
       constructor; cbn [waiters loops value upd].
       * intros q0 Hin. apply filter_In in Hin. destruct Hin as [Hin Hne]. apply negb_true_iff, Z.eqb_neq in Hne.
         apply waiting_set_other; [exact Hne | apply Ha; exact Hin].
       * apply NoDup_filter. exact Hn.
-      * intros Hne. apply Hv. intros Hc. rewrite Hc in Hne. apply Hne. reflexivity.
-    + apply WInv_release. constructor; cbn [waiters loops value upd]; [apply Hother; discriminate | assumption | assumption].
-    + apply WInv_release. constructor; cbn [waiters loops value upd]; [apply Hother; discriminate | assumption | assumption].
-    + constructor; cbn [waiters loops value upd]; [apply Hother; discriminate | assumption | assumption].
+      * intros Hne Hp. eapply granted_preserved; [exact Eg | reflexivity |]. apply Hv; [|exact Hp].
+        intros Hc. rewrite Hc in Hne. apply Hne. reflexivity.
+    + apply WInv_release; cbn [waiters loops value upd]; [apply Hother; discriminate | assumption].
+    + apply WInv_release; cbn [waiters loops value upd]; [apply Hother; discriminate | assumption].
+    + constructor; cbn [waiters loops value upd]; [apply Hother; discriminate | assumption |].
+      intros Hw Hp. eapply granted_preserved; [exact Eg | reflexivity | auto].
   - inversion H; subst; clear H. constructor; cbn [waiters loops value upd]; assumption.
 Qed.
 
@@ -443,21 +510,41 @@ Proof.
   destruct (step_ev s e) as [s1|] eqn:E; [|discriminate]. eapply IH; [eapply WInv_step; eauto | exact H].
 Qed.
 
-(* while a loop waits for a slot, every slot is in use: some task (or a loop about to spawn) will release one, and a
-   release hands the slot to the first waiting loop at once *)
+(* while a loop waits for a slot, either every slot is in use - some task (or a loop about to spawn) will release one, and a
+   release hands the slot to the first waiting loop at once - or a loop that has been handed a slot has not resumed yet, and
+   passes the spare slot on when it does (unpause_passes_spare_slot) *)
 Theorem no_lost_wakeup lim mx qs es s : 0 < lim -> NoDup qs -> run_ev (init lim mx qs) es = Some s ->
-  waiters s <> [] -> value s = 0 /\ len (tasks s) + slots_held (loops s) = lim.
+  waiters s <> [] -> (value s = 0 /\ len (tasks s) + slots_held (loops s) = lim) \/ existsb is_granted (loops s) = true.
 Proof.
   intros Hl Hq H Hw. destruct (limiter_inv lim mx qs es s ltac:(lia) Hq H) as [H1 H2].
-  pose proof (WInv_run es _ _ (WInv_init lim mx qs) H) as [_ _ Hv]. specialize (Hv Hw). split; lia.
+  pose proof (WInv_run es _ _ (WInv_init lim mx qs) H) as [_ _ Hv]. specialize (Hv Hw).
+  destruct (Z_lt_le_dec 0 (value s)) as [Hp|Hp]; [right; auto | left; split; lia].
+Qed.
+
+Theorem wake_grants_first_waiter s q w m p :
+  waiters s = q :: w -> get_loop q (loops s) = Some (mkLoop q (LWaiting m) p) ->
+  get_loop q (loops (wake_next s)) = Some (mkLoop q (LGranted m) p) /\ waiters (wake_next s) = w /\ value (wake_next s) = value s - 1.
+Proof.
+  intros Hw Hg. unfold wake_next. rewrite Hw, Hg. cbn [loops waiters value upd]. split; [|split; reflexivity].
+  eapply get_set_same. exact Hg.
 Qed.
 
 Theorem release_wakes_first_waiter s q w m p :
   waiters s = q :: w -> get_loop q (loops s) = Some (mkLoop q (LWaiting m) p) ->
   get_loop q (loops (release s)) = Some (mkLoop q (LGranted m) p) /\ waiters (release s) = w /\ value (release s) = value s.
 Proof.
-  intros Hw Hg. unfold release. rewrite Hw, Hg. cbn [loops waiters value upd]. split; [|split; reflexivity].
-  eapply get_set_same. exact Hg.
+  intros Hw Hg. unfold release.
+  match goal with |- context [wake_next ?x] => destruct (wake_grants_first_waiter x q w m p Hw Hg) as (A & B & C) end.
+  rewrite A, B, C. cbn [value upd]. repeat split. lia.
+Qed.
+
+(* the granted loop that resumes with a spare slot in the semaphore passes it to the first waiter *)
+Theorem unpause_passes_spare_slot s q m p s' :
+  get_loop q (loops s) = Some (mkLoop q (LGranted m) p) -> 0 < value s -> step_ev s (EvUnpause q) = Some s' ->
+  s' = wake_next (upd s (value s) (waiters s) (set_loop q (LHold m) false (loops s)) (tasks s) (started s) (processed s) (stop s) (backlog s) (leaked s)).
+Proof.
+  intros Hg Hp H. cbn [step_ev] in H. rewrite Hg in H. cbn [value upd] in H.
+  destruct (0 <? value s) eqn:E; [inversion H; reflexivity | apply Z.ltb_ge in E; lia].
 Qed.
 
 (* consumption pauses exactly when the limiter is locked, and the paused consumer is un-paused by the granted loop *)
